@@ -3,7 +3,8 @@ EXTENDS Bounded, TLC, Json
 CONSTANTS Deep, Side
 VARIABLE c
 GInit == c \in {f \in Family(Deep) : f.side = Side} \cup (IF Side = "p21" THEN {[table |-> "degenerate:" \o d, side |-> "p21", n |-> 0] : d \in Degenerate}
-                         \cup {[table |-> "parts", side |-> "p21", n |-> Len(q), parts |-> q] : q \in PartLists(IF Deep THEN 4 ELSE 2)} ELSE {}) /\ Init
+                         \cup {[table |-> "parts", side |-> "p21", n |-> Len(q), parts |-> q] : q \in PartLists(IF Deep THEN 4 ELSE 2)}
+                         ELSE {[table |-> "degenerate:" \o d, side |-> "express", n |-> 0] : d \in DegenerateExpress}) /\ Init
 GNext == UNCHANGED <<c, len>>
 Emit == PrintT("@@CASE " \o ToJson(c))
 ====
